@@ -65,8 +65,8 @@ def cases(rng, tier, X):
         out.append(('u%d_solo0' % k, head + solo(0)))
         out.append(('u%d_solo1' % k, head + solo(1)))
     # a host with many interfaces (VLAN sub-interfaces, container veths): every one of 9 / 17 / 20 contexts alone and all interleaved
-    for k in range(3 if tier == 'quick' else 60):
-        nif = [9, 17, 20][k % 3]
+    for k in range(5 if tier == 'quick' else 60):
+        nif = [9, 17, 20, 34, 67][k % 5]
         u = F.universal(rng, nif=nif, with_glob_changes=False)
         head = [o for o in u if o.startswith(('iface', 'glob'))]
         body = [o for o in u if o.startswith(('rx ', 'set '))]
